@@ -589,8 +589,11 @@ end PhraseS
 
 /-! ## Trees of searchers of any depth -/
 
-inductive NodeF (ι : Type) where
-  | leaf (l : Leaf)
+/-- one node of a searcher tree: `Λ` is the state type of the leaf searchers (`Leaf`: the abstract
+sorted-list leaf of this file; `PIter` of Bluge.C07.Postings: the per-segment postings iterators of
+/repo/index), `ι` the state type of the children -/
+inductive NodeF (Λ ι : Type) where
+  | leaf (l : Λ)
   | conj (s : Conj ι)
   | disjS (s : DisjS ι)
   | disjH (s : DisjH ι)
@@ -599,8 +602,8 @@ inductive NodeF (ι : Type) where
   | phrase (s : PhraseS ι)
 deriving Repr
 
-def NodeF.step {ι} (cs : Step ι) (fuel : Nat) : NodeF ι → Call → Resp × NodeF ι
-  | .leaf l, c => let r := l.step c; (r.1, .leaf r.2)
+def NodeF.step {Λ ι} (ls : Step Λ) (cs : Step ι) (fuel : Nat) : NodeF Λ ι → Call → Resp × NodeF Λ ι
+  | .leaf l, c => let r := ls l c; (r.1, .leaf r.2)
   | .conj s, c => let r := Conj.step cs fuel s c; (r.1, .conj r.2)
   | .disjS s, c => let r := DisjS.step cs fuel s c; (r.1, .disjS r.2)
   | .disjH s, c => let r := DisjH.step cs fuel s c; (r.1, .disjH r.2)
@@ -608,14 +611,14 @@ def NodeF.step {ι} (cs : Step ι) (fuel : Nat) : NodeF ι → Call → Resp × 
   | .filt s, c => let r := Filt.step cs fuel s c; (r.1, .filt r.2)
   | .phrase s, c => let r := PhraseS.step cs fuel s c; (r.1, .phrase r.2)
 
-/-- searcher trees of depth ≤ d -/
-def NodeD : Nat → Type
-  | 0 => Leaf
-  | d + 1 => NodeF (NodeD d)
+/-- searcher trees of depth ≤ d over leaves with state type `Λ` -/
+def NodeD (Λ : Type) : Nat → Type
+  | 0 => Λ
+  | d + 1 => NodeF Λ (NodeD Λ d)
 
-def stepD (fuel : Nat) : (d : Nat) → Step (NodeD d)
-  | 0 => Leaf.step
-  | d + 1 => NodeF.step (stepD fuel d) fuel
+def stepD {Λ : Type} (ls : Step Λ) (fuel : Nat) : (d : Nat) → Step (NodeD Λ d)
+  | 0 => ls
+  | d + 1 => NodeF.step ls (stepD ls fuel d) fuel
 
 /-- what a collector does: `Next` until `nil` (at most `k` times) -/
 def drain {σ} (step : Step σ) : Nat → σ → List Nat
@@ -676,28 +679,32 @@ def Plan.depth : Plan → Nat
   | .filt p _ => 1 + p.depth
   | .phrase p _ => 1 + p.depth
 
-/-- construct the searcher tree at depth `d` (a plan deeper than `d` degenerates to an empty leaf;
+/-- construct the searcher tree at depth `d` over leaves built by `mk` (a plan deeper than `d` degenerates to an empty leaf;
 `Plan.depth p ≤ d` is the side condition of every theorem and the driver uses `d = depth`) -/
-def Plan.build : (d : Nat) → Plan → NodeD d
-  | 0, .leaf k l => Leaf.mk' k l
-  | 0, _ => Leaf.mk' .postings []
-  | _ + 1, .leaf k l => NodeF.leaf (Leaf.mk' k l)
-  | d + 1, .conj ps => NodeF.conj (Conj.mk' (ps.map (fun p => p.build d)))
+def Plan.build {Λ : Type} (mk : LeafKind → List Nat → Λ) : (d : Nat) → Plan → NodeD Λ d
+  | 0, .leaf k l => mk k l
+  | 0, _ => mk .postings []
+  | _ + 1, .leaf k l => NodeF.leaf (mk k l)
+  | d + 1, .conj ps => NodeF.conj (Conj.mk' (ps.map (fun p => p.build mk d)))
   | d + 1, .disj ps min =>
-    if heapTakeover < ps.length then NodeF.disjH (DisjH.mk' (ps.map (fun p => p.build d)) min)
-    else NodeF.disjS (DisjS.mk' (ps.map (fun p => p.build d)) min)
+    if heapTakeover < ps.length then NodeF.disjH (DisjH.mk' (ps.map (fun p => p.build mk d)) min)
+    else NodeF.disjS (DisjS.mk' (ps.map (fun p => p.build mk d)) min)
   | d + 1, .bool m s n smin =>
-    NodeF.bool (BoolS.mk' (m.map (fun p => p.build d)) (s.map (fun p => p.build d)) (n.map (fun p => p.build d)) smin)
-  | d + 1, .filt p acc => NodeF.filt ⟨p.build d, acc⟩
-  | d + 1, .phrase p ok => NodeF.phrase (PhraseS.mk' (p.build d) ok)
+    NodeF.bool (BoolS.mk' (m.map (fun p => p.build mk d)) (s.map (fun p => p.build mk d)) (n.map (fun p => p.build mk d)) smin)
+  | d + 1, .filt p acc => NodeF.filt ⟨p.build mk d, acc⟩
+  | d + 1, .phrase p ok => NodeF.phrase (PhraseS.mk' (p.build mk d) ok)
 
 /-- fuel that is enough for every loop of a tree whose doc numbers are `< bound` and whose nodes have at
 most `width` children (proved in BlugeProofs.C07) -/
 def fuelFor (bound width : Nat) : Nat := (bound + 2) * (2 * width + 4)
 
-/-- run a plan the way a collector does and return the produced doc numbers -/
-def Plan.run (bound width : Nat) (p : Plan) : List Nat :=
-  drain (stepD (fuelFor bound width) p.depth) (bound + 1) (p.build p.depth)
+/-- run a plan the way a collector does and return the produced doc numbers; `ls` / `mk` = step
+function and constructor of the leaf searchers -/
+def Plan.runWith {Λ : Type} (ls : Step Λ) (mk : LeafKind → List Nat → Λ) (bound width : Nat) (p : Plan) : List Nat :=
+  drain (stepD ls (fuelFor bound width) p.depth) (bound + 1) (p.build mk p.depth)
+
+/-- … over the abstract sorted-list leaves of this file -/
+def Plan.run (bound width : Nat) (p : Plan) : List Nat := p.runWith Leaf.step Leaf.mk' bound width
 
 /-! ## The unadorned rewrites of index/optimize.go (used when `options.Score == "none"` and no term
 vectors are requested): a conjunction / a disjunction with `min ≤ 1` of more than one child, all of them
